@@ -86,6 +86,10 @@ def configs(tier, seed):
     for kind in ("idsm", "sdsm_manual"):
         for lt in ("NormalLifetime", "LogNormalLifetime", "WeibullLifetime"):
             out.append(dict(h="failed_set_prms", op=kind + lt, key=f"failed_set_prms/{kind}/{lt}", kind=kind, lt=lt, n=3))
+            if kind == "idsm" or lt == "FixedLifetime":
+                for order in (("r", "p"), ("p", "r")):
+                    for ctor in ("first", "scalars"):
+                        out.append(dict(h="same_numbers_other_dimension", op=kind + lt + "dim", key=f"same_numbers_other_dimension/{kind}/{lt}/{order[0]}_then_{order[1]}/constructed_with={ctor}", kind=kind, lt=lt, n=3, order=list(order), ctor=ctor))
     for lt in REAL:
         for order in ("ab", "ba"):
             out.append(dict(h="definition_system", op=lt, key=f"definition_system/{lt}/set_prms_order={order}", kind="idsm", lt=lt, n=3, order=order))
@@ -178,6 +182,31 @@ def run(cfg, w):
     shape = dims.shape
     if cfg["h"] == "definition_system":
         return _definition_system(cfg, w, dims)
+    if cfg["h"] == "same_numbers_other_dimension":
+        # parameters with the very same numbers, first along one label dimension, then along another of the same length
+        # (lifetimes by region, then the same two lifetimes by product): the model follows the dimension they belong to
+        from flodym import FlodymArray
+
+        dims = dsm.make_dims(y, {"r": 2, "p": 2})
+        shape = dims.shape
+        driver = w.arr("d0", shape)
+        vals = {}
+        for name in REAL[lt]:
+            A = w.arr(f"{name}_v", (2,), default=lambda idx, name=name: DEF[name] * (1 + 0.6 * idx[0]))
+            for x_ in A.flat:
+                w.assume(w.gt(x_, 0))
+            vals[name] = A
+        along = lambda l: {name: FlodymArray(dims=dims.get_subset((l,)), values=vals[name].copy()) for name in REAL[lt]}
+        first, second = cfg["order"]
+        model = getattr(lm, lt)(dims=dims, **(_prms(w, lt, "p0") if cfg.get("ctor") == "scalars" else along(first)))
+        st = dsm.build_stock(kind, dims, lifetime=model, **({"inflow": driver} if kind == "idsm" else {"stock": driver}))
+        if cfg.get("ctor") == "scalars":
+            st.lifetime_model.set_prms(**along(first))
+        st.compute()
+        st.lifetime_model.set_prms(**along(second))
+        st.compute()
+        _compare(w, f"after_set_prms_along_{second}", _results(st), _fresh(kind, dims, lt, along(second), driver))
+        return
     if cfg["h"] == "failed_set_prms":
         P0, P1 = _prms(w, lt, "p0"), _prms(w, lt, "p1")
         driver = w.arr("d0", shape)
